@@ -74,6 +74,14 @@ Theorem truncation_never_eof : forall s mx mn,
    else step s (URead mx mn) = (s', OExc XAbrupt) /\ sess s' = option_map (fun _ => false) (sess s).
 Proof. exact read_truncated. Qed.
 
+(* ... and in general, for ANY state and ANY queue of arrived messages: a read on an open
+   connection that returns normally and leaves the connection closed, with ignoreAbruptClose
+   off, can only have been ended by a close_notify alert that had arrived *)
+Theorem truncation_never_eof_general : forall s mx mn s' d,
+  ign s = false -> closed s = false -> step s (URead mx mn) = (s', ORet d) -> closed s' = true ->
+  exists l, In (IAlert l 0) (inq s).
+Proof. exact read_closes_only_on_close_notify. Qed.
+
 (* whenever ANY call raises, the connection is closed afterwards (states reachable from a
    fresh connection satisfy inv, see inv_reachable) *)
 Theorem exception_closes : forall s ev s' x, inv s -> step s ev = (s', OExc x) -> closed s' = true.
